@@ -1343,7 +1343,15 @@ void coefficient_add(const lp_polynomial_context_t* ctx, coefficient_t* S, const
     if (C1->type == COEFFICIENT_NUMERIC) {
       assert(C2->type == COEFFICIENT_NUMERIC);
       // Add the integers
-      integer_add(ctx->K, &S->value.num, &C1->value.num, &C2->value.num);
+      if (S->type == COEFFICIENT_POLYNOMIAL) {
+        // The output is currently a polynomial, compute into a fresh constant
+        coefficient_construct(ctx, &result);
+        integer_add(ctx->K, &result.value.num, &C1->value.num, &C2->value.num);
+        coefficient_swap(&result, S);
+        coefficient_destruct(&result);
+      } else {
+        integer_add(ctx->K, &S->value.num, &C1->value.num, &C2->value.num);
+      }
     } else {
       assert(C1->type == COEFFICIENT_POLYNOMIAL);
       assert(C2->type == COEFFICIENT_POLYNOMIAL);
@@ -1457,7 +1465,15 @@ void coefficient_sub(const lp_polynomial_context_t* ctx, coefficient_t* S, const
     if (C1->type == COEFFICIENT_NUMERIC) {
       assert(C2->type == COEFFICIENT_NUMERIC);
       // Subtract the integers
-      integer_sub(ctx->K, &S->value.num, &C1->value.num, &C2->value.num);
+      if (S->type == COEFFICIENT_POLYNOMIAL) {
+        // The output is currently a polynomial, compute into a fresh constant
+        coefficient_construct(ctx, &result);
+        integer_sub(ctx->K, &result.value.num, &C1->value.num, &C2->value.num);
+        coefficient_swap(&result, S);
+        coefficient_destruct(&result);
+      } else {
+        integer_sub(ctx->K, &S->value.num, &C1->value.num, &C2->value.num);
+      }
     } else {
       assert(C1->type == COEFFICIENT_POLYNOMIAL);
       assert(C2->type == COEFFICIENT_POLYNOMIAL);
@@ -1526,7 +1542,15 @@ void coefficient_mul(const lp_polynomial_context_t* ctx, coefficient_t* P, const
     if (C1->type == COEFFICIENT_NUMERIC) {
       assert(C2->type == COEFFICIENT_NUMERIC);
       // Multiply the integers
-      integer_mul(ctx->K, &P->value.num, &C1->value.num, &C2->value.num);
+      if (P->type == COEFFICIENT_POLYNOMIAL) {
+        // The output is currently a polynomial, compute into a fresh constant
+        coefficient_construct(ctx, &result);
+        integer_mul(ctx->K, &result.value.num, &C1->value.num, &C2->value.num);
+        coefficient_swap(&result, P);
+        coefficient_destruct(&result);
+      } else {
+        integer_mul(ctx->K, &P->value.num, &C1->value.num, &C2->value.num);
+      }
     } else {
       assert(C1->type == COEFFICIENT_POLYNOMIAL);
       assert(C2->type == COEFFICIENT_POLYNOMIAL);
